@@ -17,6 +17,7 @@ import (
 	"go/types"
 	"os"
 	"path/filepath"
+	"regexp"
 	"sort"
 	"strconv"
 	"strings"
@@ -28,6 +29,34 @@ func exprStr(e ast.Node) string {
 	var b strings.Builder
 	_ = printer.Fprint(&b, fset, e)
 	return strings.Join(strings.Fields(b.String()), " ")
+}
+
+// keyStr prints an expression for use in a site key: local variables, parameters and receivers are numbered in order of
+// appearance ($1, $2, …), so renaming one does not change the key; fields, functions, types and packages keep their names
+func keyStr(info *types.Info, e ast.Node) string {
+	s := exprStr(e)
+	var names []string
+	seen := map[string]bool{}
+	ast.Inspect(e, func(n ast.Node) bool {
+		id, ok := n.(*ast.Ident)
+		if !ok {
+			return true
+		}
+		v, ok := info.Uses[id].(*types.Var)
+		if !ok || v.IsField() || v.Parent() == nil || v.Pkg() == nil || v.Parent() == v.Pkg().Scope() {
+			return true
+		}
+		if !seen[id.Name] {
+			seen[id.Name] = true
+			names = append(names, id.Name)
+		}
+		return true
+	})
+	for k, nm := range names {
+		re := regexp.MustCompile(`(^|[^.\w$])` + regexp.QuoteMeta(nm) + `\b`)
+		s = re.ReplaceAllString(s, "${1}$$"+strconv.Itoa(k+1))
+	}
+	return s
 }
 
 func leanStr(s string) string {
@@ -187,6 +216,9 @@ func (w *walker) impliesLenGreater(cond ast.Expr, base string, c int) bool {
 		if x.Op == token.LAND {
 			return w.impliesLenGreater(x.X, base, c) || w.impliesLenGreater(x.Y, base, c)
 		}
+		if x.Op == token.NEQ && c == 0 && exprStr(x.X) == base && exprStr(x.Y) == `""` {
+			return true // base != ""
+		}
 		if d, ok := w.lenExpr(x.X, base, 0); ok {
 			if k, ok := intLit(x.Y); ok {
 				k -= d // len(base) + d <op> k  ⇔  len(base) <op> k - d
@@ -212,6 +244,9 @@ func (w *walker) refutesLenGreater(cond ast.Expr, base string, c int) bool {
 	case *ast.BinaryExpr:
 		if x.Op == token.LOR {
 			return w.refutesLenGreater(x.X, base, c) || w.refutesLenGreater(x.Y, base, c)
+		}
+		if x.Op == token.EQL && c == 0 && exprStr(x.X) == base && exprStr(x.Y) == `""` {
+			return true // not (base == "")
 		}
 		if d, ok := w.lenExpr(x.X, base, 0); ok {
 			if k, ok := intLit(x.Y); ok {
@@ -280,6 +315,63 @@ func (w *walker) lenGuarded(base string, c int) bool {
 						}
 					}
 				}
+			}
+		case *ast.BinaryExpr:
+			// short-circuit evaluation: the right operand of `&&` runs only when the left one held, of `||` only when it did not
+			if p.Y == child && p.Op == token.LAND && w.impliesLenGreater(p.X, base, c) {
+				return true
+			}
+			if p.Y == child && p.Op == token.LOR && w.refutesLenGreater(p.X, base, c) {
+				return true
+			}
+		case *ast.FuncLit:
+			return false
+		}
+	}
+	return false
+}
+
+// impliesAtLeastLenOf: does `cond` being TRUE imply len(base) >= len(y) ?
+func impliesAtLeastLenOf(cond ast.Expr, base, y string) bool {
+	switch x := cond.(type) {
+	case *ast.ParenExpr:
+		return impliesAtLeastLenOf(x.X, base, y)
+	case *ast.BinaryExpr:
+		switch x.Op {
+		case token.LAND:
+			return impliesAtLeastLenOf(x.X, base, y) || impliesAtLeastLenOf(x.Y, base, y)
+		case token.LOR:
+			return impliesAtLeastLenOf(x.X, base, y) && impliesAtLeastLenOf(x.Y, base, y)
+		case token.EQL:
+			l, r := exprStr(x.X), exprStr(x.Y)
+			return (l == base && r == y) || (l == y && r == base)
+		}
+	case *ast.CallExpr:
+		if f := exprStr(x.Fun); (f == "strings.HasPrefix" || f == "strings.HasSuffix") && len(x.Args) == 2 && exprStr(x.Args[0]) == base {
+			if exprStr(x.Args[1]) == y {
+				return true
+			}
+			if be, ok := x.Args[1].(*ast.BinaryExpr); ok && be.Op == token.ADD && (exprStr(be.X) == y || exprStr(be.Y) == y) {
+				return true
+			}
+		}
+	}
+	return false
+}
+
+// prefixGuarded: is the node on top of the stack inside the body of an `if` (or to the right of an `&&`) whose condition implies
+// len(base) >= len(y) ?
+func (w *walker) prefixGuarded(base, y string) bool {
+	for i := len(w.stack) - 2; i >= 0; i-- {
+		child := w.stack[i+1]
+		switch p := w.stack[i].(type) {
+		case *ast.IfStmt:
+			if p.Body == child && impliesAtLeastLenOf(p.Cond, base, y) {
+				return true
+			}
+		case *ast.BinaryExpr:
+			if p.Y == child && p.Op == token.LAND && impliesAtLeastLenOf(p.X, base, y) {
+				return true
 			}
 		case *ast.FuncLit:
 			return false
@@ -463,6 +555,25 @@ func (w *walker) sliceClass(x *ast.SliceExpr) string {
 			return "constant slice bound under a length check"
 		}
 	}
+	// x[len(y):] under `x == y`, `strings.HasPrefix(x, y)` or `strings.HasPrefix(x, y+…)` (or a disjunction of such): len(x) >= len(y)
+	if call, ok := x.Low.(*ast.CallExpr); ok && len(call.Args) == 1 && exprStr(call.Fun) == "len" {
+		if w.prefixGuarded(exprStr(x.X), exprStr(call.Args[0])) {
+			return "slice past a prefix under an equality or HasPrefix check"
+		}
+	}
+	// x[strings.LastIndexByte(x, c)+1:] and the like: the index is in [-1, len(x)-1], one past it is in [0, len(x)]
+	if be, ok := x.Low.(*ast.BinaryExpr); ok && be.Op == token.ADD {
+		if k, ok := intLit(be.Y); ok && k == 1 {
+			if call, ok := be.X.(*ast.CallExpr); ok && len(call.Args) == 2 && exprStr(call.Args[0]) == exprStr(x.X) {
+				switch exprStr(call.Fun) {
+				case "strings.LastIndexByte", "strings.IndexByte", "strings.LastIndex", "strings.Index", "strings.IndexRune", "strings.LastIndexAny", "strings.IndexAny":
+					if tv, ok := w.info.Types[x.X]; ok && isStringLike(tv.Type) {
+						return "slice from one past a strings index of the same string"
+					}
+				}
+			}
+		}
+	}
 	return ""
 }
 
@@ -546,29 +657,51 @@ func (w *walker) mapRangeClass(rs *ast.RangeStmt) string {
 	if k, ok := rs.Key.(*ast.Ident); ok {
 		key = k.Name
 	}
-	// (a) every statement stores into a map under the range key (distinct keys: order cannot matter); `if`/`else` whose
-	// branches do nothing else are allowed (the usual "merge if present, else copy")
+	// (a) every statement stores into a map under the range key (distinct keys: order cannot matter) or assigns to a variable
+	// that lives in the iteration (the range value, a variable defined in the body); `if`/`else` whose branches do nothing
+	// else are allowed (the usual "merge if present, else copy"). The target map is not looked at in any other way than
+	// `target[key]`, so an iteration cannot see what another one stored.
+	local := map[string]bool{}
+	if v, ok := rs.Value.(*ast.Ident); ok && v.Name != "_" {
+		local[v.Name] = true
+	}
+	ast.Inspect(rs.Body, func(n ast.Node) bool {
+		if as, ok := n.(*ast.AssignStmt); ok && as.Tok == token.DEFINE {
+			for _, l := range as.Lhs {
+				if id, ok := l.(*ast.Ident); ok {
+					local[id.Name] = true
+				}
+			}
+		}
+		return true
+	})
+	targets := map[string]bool{}
+	stores := 0
 	var storesOnly func(list []ast.Stmt) bool
 	storesOnly = func(list []ast.Stmt) bool {
-		if len(list) == 0 {
-			return false
-		}
 		for _, st := range list {
 			switch x := st.(type) {
 			case *ast.AssignStmt:
-				if len(x.Lhs) != 1 || x.Tok != token.ASSIGN {
+				if x.Tok != token.ASSIGN && x.Tok != token.DEFINE {
 					return false
 				}
-				ix, ok := x.Lhs[0].(*ast.IndexExpr)
-				if !ok || key == "" || exprStr(ix.Index) != key {
-					return false
-				}
-				tv, ok := w.info.Types[ix.X]
-				if !ok {
-					return false
-				}
-				if _, isMap := tv.Type.Underlying().(*types.Map); !isMap {
-					return false
+				for _, l := range x.Lhs {
+					if id, ok := l.(*ast.Ident); ok && (local[id.Name] || id.Name == "_") {
+						continue
+					}
+					ix, ok := l.(*ast.IndexExpr)
+					if !ok || key == "" || exprStr(ix.Index) != key {
+						return false
+					}
+					tv, ok := w.info.Types[ix.X]
+					if !ok {
+						return false
+					}
+					if _, isMap := tv.Type.Underlying().(*types.Map); !isMap {
+						return false
+					}
+					targets[exprStr(ix.X)] = true
+					stores++
 				}
 			case *ast.IfStmt:
 				if x.Init != nil {
@@ -598,8 +731,20 @@ func (w *walker) mapRangeClass(rs *ast.RangeStmt) string {
 		}
 		return true
 	}
-	if storesOnly(rs.Body.List) {
-		return "stores under the range key into another map"
+	if storesOnly(rs.Body.List) && stores > 0 {
+		clean := true
+		ast.Inspect(rs.Body, func(n ast.Node) bool {
+			if ix, ok := n.(*ast.IndexExpr); ok && targets[exprStr(ix.X)] && exprStr(ix.Index) == key {
+				return false // target[key]: the iteration's own entry
+			}
+			if e, ok := n.(ast.Expr); ok && targets[exprStr(e)] {
+				clean = false
+			}
+			return true
+		})
+		if clean {
+			return "stores under the range key into another map"
+		}
 	}
 	// (b) every statement appends to ONE slice, and that slice is sorted later in the same function
 	target := ""
@@ -735,7 +880,7 @@ func main() {
 									if c := w.mapRangeClass(x); c != "" {
 										mapClasses = append(mapClasses, c)
 									} else {
-										mapRanges = append(mapRanges, fn+": range "+exprStr(x.X))
+										mapRanges = append(mapRanges, fn+": range "+keyStr(info, x.X))
 									}
 								}
 							}
@@ -755,7 +900,7 @@ func main() {
 									if c := w.indexClass(x); c != "" {
 										guarded[c]++
 									} else {
-										panics = append(panics, fn+": index "+exprStr(x))
+										panics = append(panics, fn+": index "+keyStr(info, x))
 									}
 								}
 							}
@@ -763,14 +908,14 @@ func main() {
 							if c := w.sliceClass(x); c != "" {
 								guarded[c]++
 							} else {
-								panics = append(panics, fn+": slice "+exprStr(x))
+								panics = append(panics, fn+": slice "+keyStr(info, x))
 							}
 						case *ast.TypeAssertExpr:
 							if x.Type != nil {
 								if commaOk[x] {
 									guarded["type assertion in comma-ok form"]++
 								} else {
-									panics = append(panics, fn+": assert "+exprStr(x))
+									panics = append(panics, fn+": assert "+keyStr(info, x))
 								}
 							}
 						case *ast.CallExpr:
@@ -785,10 +930,10 @@ func main() {
 							if sel, ok := x.Fun.(*ast.SelectorExpr); ok {
 								obj = info.Uses[sel.Sel]
 								if strings.HasPrefix(sel.Sel.Name, "Must") {
-									panics = append(panics, fn+": "+callee)
+									panics = append(panics, fn+": "+keyStr(info, x.Fun))
 								}
 								if callee == "strings.Repeat" {
-									panics = append(panics, fn+": strings.Repeat "+exprStr(x.Args[1]))
+									panics = append(panics, fn+": strings.Repeat")
 								}
 								if id, ok := sel.X.(*ast.Ident); ok {
 									if pk, ok := info.Uses[id].(*types.PkgName); ok {
@@ -852,10 +997,10 @@ func main() {
 	var b strings.Builder
 	b.WriteString("/- REGENERATED by /verif/tools/sites (go/types, source importer) from every non-test .go file of /repo\n   except the generated internal/gontainer/gontainer.go — do not edit. -/\nnamespace GM.Generated\n\n")
 	fmt.Fprintf(&b, "/-- `range` statements over map-typed expressions whose body is of a recognised order-independent form (class, one entry per site) -/\ndef mapRangeClasses : List String := %s\n\n", leanList(mapClasses))
-	fmt.Fprintf(&b, "/-- the other `range` statements over map-typed expressions, by location -/\ndef mapRangeSites : List String := %s\n\n", leanList(uniq(mapRanges)))
+	fmt.Fprintf(&b, "/-- the other `range` statements over map-typed expressions, by location -/\ndef mapRangeSites : List String := %s\n\n", leanList(counted(mapRanges)))
 	fmt.Fprintf(&b, "/-- the ordering of every sort call (one entry per call) -/\ndef sortSites : List String := %s\n\n", leanList(sorts))
 	fmt.Fprintf(&b, "/-- panic-capable constructs that are guarded in a recognised way: (guard, number of sites) -/\ndef guardedSites : List (String × Nat) := [%s]\n\n", strings.Join(gl, ", "))
-	fmt.Fprintf(&b, "/-- the other constructs that can panic, by location: slice/array/string index, slice expression, type assertion without comma-ok, explicit panic, Must* call, strings.Repeat -/\ndef panicSites : List String := %s\n\n", leanList(uniq(panics)))
+	fmt.Fprintf(&b, "/-- the other constructs that can panic, by location: slice/array/string index, slice expression, type assertion without comma-ok, explicit panic, Must* call, strings.Repeat -/\ndef panicSites : List String := %s\n\n", leanList(counted(panics)))
 	fmt.Fprintf(&b, "/-- the kind of every `for` statement (one entry per kind that occurs) -/\ndef loopKinds : List String := %s\n\n", leanList(uniq(loops)))
 	fmt.Fprintf(&b, "/-- functions on a cycle of the static call graph of the module (calls through interfaces excluded) -/\ndef recursiveFuncs : List String := %s\n\n", leanList(uniq(rec)))
 	fmt.Fprintf(&b, "/-- the functions of os, io/fs, time, math/rand, runtime, path/filepath, os/exec, net the module calls -/\ndef ambientAPIs : List String := %s\n\n", leanList(uniq(ambientAPIs)))
@@ -869,6 +1014,23 @@ func main() {
 			os.Exit(2)
 		}
 	}
+}
+
+// counted: the distinct entries, sorted; an entry that occurs n > 1 times is written "entry (x n)"
+func counted(l []string) []string {
+	n := map[string]int{}
+	for _, s := range l {
+		n[s]++
+	}
+	var out []string
+	for s, k := range n {
+		if k > 1 {
+			s = fmt.Sprintf("%s (x %d)", s, k)
+		}
+		out = append(out, s)
+	}
+	sort.Strings(out)
+	return out
 }
 
 func uniq(l []string) []string {
